@@ -38,6 +38,9 @@ type FuncSpec struct {
 	Verify    bool // verify body
 	NilStrict bool
 	HoldsAtEntry []string
+	Known     map[string]Clause // label -> region in which the clause is a recorded finding
+	Replay    ast.Expr          // call to a replay builder (verif-tagged Go function) with entry-state arguments
+	ReplayText string
 }
 
 type LoopSpec struct {
@@ -358,6 +361,31 @@ func (sp *Specs) parseFile(path string, extern bool) error {
 			if curF != nil {
 				curF.Pure = true
 			}
+		case "known":
+			if curF == nil {
+				return fail(fmt.Errorf("known outside func block"))
+			}
+			c, err := mkClause(rest)
+			if err != nil {
+				return fail(err)
+			}
+			if c.Label == "" {
+				return fail(fmt.Errorf("known needs <label>: <region>"))
+			}
+			if curF.Known == nil {
+				curF.Known = map[string]Clause{}
+			}
+			curF.Known[c.Label] = c
+		case "replay":
+			if curF == nil {
+				return fail(fmt.Errorf("replay outside func block"))
+			}
+			e, err := parseSpecExpr(rest)
+			if err != nil {
+				return fail(err)
+			}
+			curF.Replay = e
+			curF.ReplayText = rest
 		case "inline":
 			if curF != nil {
 				curF.Inline = true
